@@ -234,12 +234,43 @@ def fn_states(items):
     return {'n': n, 'nt': nt, 'viol': viol, 'keys': keys}
 
 
+def fn_states_n3(items):
+    """item = [budget, lo, hi]: N=3 states from the deterministic BFS set (c06._n3_states): all 128 generators:
+    rho -> U^dag rho U, valid, G then -G restores the tableau."""
+    from . import c06
+    n = nt = 0
+    viol = []
+    N = 3
+    for budget, lo, hi in items:
+        if budget not in c06._N3:
+            c06._N3[budget] = c06._n3_states(budget, 0)
+        for i in range(lo, min(hi, len(c06._N3[budget]))):
+            gs0, ps0, r0 = c06._N3[budget][i]
+            rho0 = stab.rho_of(gs0, ps0, r0)
+            for g, p in dom.hermitian_paulis(N):
+                st = lib.ST(gs0, ps0, r0)
+                st.rotate_by(lib.P(g, p))
+                n += 1
+                U = ref.rot_unitary(g, p, N)
+                exp = U.conj().T @ rho0 @ U
+                nt += int(not np.allclose(exp, rho0))
+                bad = ref.tableau_invariant(np.asarray(st.gs), np.asarray(st.ps), int(st.r))
+                if bad or int(st.r) != r0 or not np.allclose(stab.rho_of(st.gs, st.ps, st.r), exp):
+                    viol.append(V('C02/state-N3/%s' % ('invalid' if bad else 'denotation'), [budget, i, i + 1], 'N=3 state #%d rotate_by %s wrong (%s)' % (i, ref.g_to_str(g, p), bad)))
+                    continue
+                st.rotate_by(lib.P(g, (p + 2) % 4))
+                if stab.key_arrays(st.gs, st.ps, st.r) != stab.key_arrays(gs0, ps0, r0):
+                    viol.append(V('C02/state-N3/history/G,-G', [budget, i, i + 1], 'N=3 state #%d: G then -G does not restore the tableau' % i))
+    return {'n': n, 'nt': nt, 'viol': viol}
+
+
 def legs(tier):
     out = []
     Ns = (1, 2) if tier == 'quick' else (1, 2, 3)
-    out.append(Leg('operators', fn_ops, [[N, gi, 'py'] for N in (1, 2, 3) for gi in range(4 ** N)], chunk=4,
-                   src_states=sum(4 * 4 ** N for N in (1, 2, 3)),
-                   bound='N<=3: all 2*4^N generators x all 4*4^N operands (list, single Pauli N<=2, polynomial); G,-G and G^4 histories'))
+    oN = (1, 2, 3) if tier == 'quick' else (1, 2, 3, 4)
+    out.append(Leg('operators', fn_ops, [[N, gi, 'py'] for N in oN for gi in range(4 ** N)], chunk=4,
+                   src_states=sum(4 * 4 ** N for N in oN),
+                   bound='N<=%d: all 2*4^N generators x all 4*4^N operands (list, single Pauli N<=2, polynomial); G,-G and G^4 histories' % oN[-1]))
     mitems = []
     for N in (2, 3) if tier == 'quick' else (2, 3, 4):
         for nn in (1, 2, 3):
@@ -256,6 +287,9 @@ def legs(tier):
     out.append(Leg('states_N1', fn_states, [[1, i] for i in range(48)], chunk=6, src_states=48, bound='all 48 tableaux x 8 generators'))
     out.append(Leg('states_N2', fn_states, [[2, i] for i in range(34560)], chunk=80, src_states=34560,
                    bound='all 34560 tableaux x (32 generators + 16 masked 1-qubit generators)'))
+    if tier != 'quick':
+        out.append(Leg('states_N3', fn_states_n3, [[2000, lo, lo + 20] for lo in range(0, 2000, 20)], chunk=1, exhaustive=False, supplementary=True,
+                       bound='2000 distinct N=3 density matrices (BFS from constructors) x all 128 generators'))
     from .c03 import fn_rotmap
     out.append(Leg('rotation_map_histories', fn_rotmap, [[N, gi] for N in (1, 2, 3) for gi in range(4 ** N)], chunk=4,
                    bound='all Hermitian generators N<=3: clifford_rotation_map(G) vs rotate_by(G) vs U^dag P U on the whole group; history: mutate the returned map in place, request it again'))
